@@ -73,6 +73,7 @@ struct ly_ctx;
  * NULL terminated string, the len parameter says number of bytes stored in
  * dictionary. The specified number of bytes is duplicated and terminating NULL
  * byte is added automatically. If \p len is 0, it is count automatically using strlen().
+ * A NULL byte among the \p len bytes ends the stored string.
  * @param[out] str_p Optional parameter to get pointer to the string corresponding to the @p value and stored in dictionary.
  * @return LY_SUCCESS in case of successful insertion into dictionary, note that the function does not return LY_EEXIST.
  * @return LY_EINVAL in case of invalid input parameters.
